@@ -250,6 +250,88 @@ func c12Confinement(c *run.Ctx) {
 		}
 	}
 	c.Sample(map[string]interface{}{"confinement_needles": needles[:8], "audiences": auds[:5], "flows": flows})
+	c12PartialConsent(c)
+}
+
+// c12PartialConsent: the resource owner grants less than was requested (all of it inside the client's policy);
+// tokens from the authorization endpoint, from the code exchange and from a refresh carry exactly what was granted.
+func c12PartialConsent(c *run.Ctx) {
+	if !c.Mine(5) && c.NShards > 5 {
+		return
+	}
+	for vi, jwt := range []bool{false, true} {
+		w := world.New(world.Opts{JWTAccess: jwt, Cfg: func(cfg *fosite.Config) { cfg.RefreshTokenScopes = []string{} }})
+		w.AddClient(world.ClientSpec{ID: "c12p", Secret: "s12p", RedirectURIs: []string{"https://c12p.example/cb"}, GrantTypes: world.AllGrants, ResponseTypes: world.AllResponseTypes,
+			Scopes: []string{"openid", "photos.*", "fosite"}, Audience: []string{"https://api.example/v1", "https://rs.example"}})
+		a := world.Basic("c12p", "s12p")
+		reqScopes := []string{"openid", "photos.read", "photos.write", "fosite"}
+		reqAud := []string{"https://api.example/v1/users", "https://rs.example/x"}
+		grScopes := []string{"openid", "photos.read"}
+		grAud := []string{"https://rs.example/x"}
+		check := func(where, tok string) {
+			in := w.IntrospectAPI(tok, fosite.AccessToken)
+			c.Case(fmt.Sprintf("partial-consent %s jwt=%v active=%v", where, jwt, in.Active))
+			c.Count("c12_partial_consent_tokens", 1)
+			if !in.Active {
+				c.Violate(run.Violation{Kind: "in-policy-token-inactive", Key: "in-policy-token-inactive partial-consent " + where, Detail: "token inactive"})
+				return
+			}
+			if !sameStrings(in.AR.GetGrantedScopes(), grScopes) {
+				c.Violate(run.Violation{Kind: "token-scope-not-granted", Key: "token-scope-not-granted partial-consent " + where, Detail: fmt.Sprintf("token scopes %v, the resource owner granted %v (requested %v)", in.AR.GetGrantedScopes(), grScopes, reqScopes)})
+			}
+			if !sameStrings(in.AR.GetGrantedAudience(), grAud) {
+				c.Violate(run.Violation{Kind: "token-audience-not-granted", Key: "token-audience-not-granted partial-consent " + where, Detail: fmt.Sprintf("token audience %v, the resource owner granted %v (requested %v)", in.AR.GetGrantedAudience(), grAud, reqAud)})
+			}
+		}
+		for _, rt := range []string{"code", "id_token token", "code token", "code id_token token"} {
+			q := url.Values{"client_id": {"c12p"}, "response_type": {rt}, "state": {"state-0123456789"}, "nonce": {"nonce-0123456789"}, "redirect_uri": {"https://c12p.example/cb"},
+				"scope": {strings.Join(reqScopes, " ")}, "audience": {strings.Join(reqAud, " ")}}
+			cons := world.Consent{Scopes: grScopes, NoAud: true, ReqMut: func(ar fosite.AuthorizeRequester) {
+				for _, x := range grAud {
+					ar.GrantAudience(x)
+				}
+			}}
+			viaPAR := vi == 1 && rt == "code"
+			var out *world.AuthzOut
+			if viaPAR {
+				p := w.PAR(q, a)
+				out = w.Authorize(url.Values{"client_id": {"c12p"}, "request_uri": {p.S("request_uri")}}, cons)
+			} else {
+				out = w.Authorize(q, cons)
+			}
+			if out.Err != nil {
+				c.Inconcl("partial consent request refused: " + world.ErrDetail(out.Err))
+				continue
+			}
+			if t := out.Params.Get("access_token"); t != "" {
+				check("authorization-endpoint rt="+rt, t)
+			}
+			if code := out.Params.Get("code"); code != "" {
+				tk := w.Token(url.Values{"grant_type": {"authorization_code"}, "code": {code}, "redirect_uri": {"https://c12p.example/cb"}}, a)
+				if tk.Err == nil {
+					check("code-exchange rt="+rt, tk.S("access_token"))
+					if rtok := tk.S("refresh_token"); rtok != "" {
+						rf := w.Token(url.Values{"grant_type": {"refresh_token"}, "refresh_token": {rtok}}, a)
+						if rf.Err == nil {
+							check("refresh rt="+rt, rf.S("access_token"))
+						}
+					}
+				}
+			}
+		}
+		// device flow: the user approves a subset of the requested scopes
+		dv := w.Device(url.Values{"client_id": {"c12p"}, "scope": {"openid photos.read photos.write fosite"}}, a)
+		if dv.Err == nil && w.DeviceDecide(dv.S("user_code"), true, "user-d", []string{"openid", "photos.read"}, false) == nil {
+			tk := w.Token(url.Values{"grant_type": {"urn:ietf:params:oauth:grant-type:device_code"}, "device_code": {dv.S("device_code")}}, a)
+			if tk.Err == nil {
+				in := w.IntrospectAPI(tk.S("access_token"), fosite.AccessToken)
+				c.Count("c12_partial_consent_tokens", 1)
+				if in.Active && !sameStrings(in.AR.GetGrantedScopes(), []string{"openid", "photos.read"}) {
+					c.Violate(run.Violation{Kind: "token-scope-not-granted", Key: "token-scope-not-granted partial-consent device", Detail: fmt.Sprintf("token scopes %v", in.AR.GetGrantedScopes())})
+				}
+			}
+		}
+	}
 }
 
 func sameStrings(a, b []string) bool {
